@@ -1,5 +1,11 @@
 package world
 
+import (
+	"os"
+	"strings"
+	"sync"
+)
+
 func init() {
 	profileGen["C15"] = genC15
 	profileAfterMain["C15"] = func(w *World) {
@@ -24,14 +30,35 @@ func genC15(g *gen) {
 	c.NMgrs = pick(g.r, 1, 2, 2)
 	c.FaultFree = false
 	c.FreeTasks = true
-	// three runs in four hold library goroutines up at a random subset of their statements (T6): a
-	// goroutine that sleeps on the fake clock across driver steps is not ordered after them
-	if g.chance(0.75) {
+	// Most runs hold library goroutines up on the fake clock (T6): a goroutine that sleeps across
+	// driver steps is not ordered after them by the driver's own synchronisation. Either a random
+	// subset of the statements with short stalls ("spray"), or one statement - preferably in the body
+	// of a goroutine the library starts itself - with long ones ("targeted").
+	switch x := g.r.Float64(); {
+	case x < 0.15:
+	case x < 0.5:
 		c.StallPermille = pick(g.r, 3, 10, 30)
 		c.StallHitPct = pick(g.r, 20, 50, 100)
 		c.StallMaxShift = pick(g.r, 10, 14, 16) // up to 1 ms, 16 ms, 65 ms
+	default:
+		all, inGo := stallSites()
+		if len(all) == 0 {
+			break
+		}
+		if len(inGo) > 0 && g.chance(0.6) {
+			c.StallOnly = inGo[g.r.IntN(len(inGo))]
+		} else {
+			c.StallOnly = all[g.r.IntN(len(all))]
+		}
+		c.StallHitPct = pick(g.r, 50, 100)
+		c.StallMinShift = pick(g.r, 10, 14, 16)
+		c.StallMaxShift = c.StallMinShift + pick(g.r, 2, 4, 6) // up to 4 s
+		c.FaultOnStall = g.chance(0.7)
 	}
-	c.SendBuffer = pick(g.r, 0, 1, 16)
+	if v := os.Getenv("SIM_STALL_ONLY"); v != "" {
+		// development knob: every run targets this site
+		c.StallPermille, c.StallOnly, c.StallHitPct, c.StallMinShift, c.StallMaxShift, c.FaultOnStall = 0, v, 100, 16, 22, true
+	}
 	g.genConfigs(true)
 	n := c.NServers
 	// the first configuration of each manager leaves some servers out; they join the node pool
@@ -67,6 +94,40 @@ func genC15(g *gen) {
 	}
 	pool := stubsOf("rpc", "qc", "async", "corr", "cstream", "mcast", "ucast")
 	for m := 0; m < c.NMgrs; m++ {
+		// a third of the managers: a thread sends so much data to a node whose handler hangs (the
+		// server stops reading) that the node's sender blocks inside a write, under contexts that end
+		// - the per-request watcher then resets the stream while other calls, faults and reconnects go on
+		if members := g.prog.Configs[m][0]; len(members) > 0 && g.chance(0.33) {
+			flood := members[g.r.IntN(len(members))]
+			th := &Thread{Mgr: m}
+			kb := pick(g.r, 32, 64, 128)
+			for sent := 0; sent < 300; sent += kb {
+				s := pick(g.r, stubByName["Multicast"], stubByName["Unicast"], stubByName["QuorumCallAsync"])
+				op := g.callOp(m, s, 0, 0)
+				op.Cfg = 0
+				op.Node = flood
+				op.NoSendWait = true
+				op.PadKB = kb
+				op.Plans = map[int]*HandlerPlan{flood: {Reply: "hang"}}
+				if op.QF != nil {
+					op.QF = &QFSpec{Threshold: 1, NeedServer: -1}
+				}
+				switch pick(g.r, "cancel", "deadline", "bg") {
+				case "cancel":
+					op.Ctx, op.CancelW = "cancel", pick(g.r, 0.3, 0.1)
+				case "deadline":
+					op.Ctx, op.DeadlineMs = "deadline", pick(g.r, 10, 50, 300)
+				default:
+					op.Ctx = "bg"
+				}
+				th.Ops = append(th.Ops, op)
+			}
+			g.prog.Threads = append(g.prog.Threads, th)
+			// and the connection may break by itself while the sender is stuck in that write
+			for k := g.r.IntN(3); k > 0; k-- {
+				g.prog.Faults = append(g.prog.Faults, &Fault{Kind: "reset", Srv: flood, Mgr: -1, AtStep: 20 + g.r.IntN(250)})
+			}
+		}
 		nThreads := 2 + g.r.IntN(3)
 		for t := 0; t < nThreads; t++ {
 			th := &Thread{Mgr: m}
@@ -117,4 +178,30 @@ func genC15(g *gen) {
 			g.prog.Faults = append(g.prog.Faults, &Fault{Kind: "close", Mgr: m, K: pick(g.r, 1, 2), AtStep: 100 + g.r.IntN(600)})
 		}
 	}
+}
+
+var stallSiteList struct {
+	once       sync.Once
+	all, inGo []string
+}
+
+// stallSites returns the stall sites the instrumenter has put into the library (T6): all of them,
+// and those inside the body of a `go func` literal. The list belongs to the build (SIM_STALL_SITES).
+func stallSites() (all, inGo []string) {
+	stallSiteList.once.Do(func() {
+		b, err := os.ReadFile(os.Getenv("SIM_STALL_SITES"))
+		if err != nil {
+			return
+		}
+		for _, l := range strings.Split(string(b), "\n") {
+			if l == "" {
+				continue
+			}
+			stallSiteList.all = append(stallSiteList.all, l)
+			if strings.HasSuffix(l, "@go") {
+				stallSiteList.inGo = append(stallSiteList.inGo, l)
+			}
+		}
+	})
+	return stallSiteList.all, stallSiteList.inGo
 }
